@@ -443,7 +443,7 @@ func EqualTypedValues(v1, v2 *sdcpb.TypedValue) bool {
 }
 
 func TypedValueToString(tv *sdcpb.TypedValue) string {
-	switch tv.Value.(type) {
+	switch tv.GetValue().(type) {
 	case *sdcpb.TypedValue_AnyVal:
 		return string(tv.GetAnyVal().GetValue()) // questionable...
 	case *sdcpb.TypedValue_AsciiVal:
